@@ -242,6 +242,9 @@ def parse_impl(line):
     if not m:
         if 'CRASH' in line or 'TIMEOUT' in line:
             return 'the library crashed or hung while the object was being obtained: ' + line.strip()[:120]
+        if 'PRODFAIL container' in line:
+            return ('the container (element/key/value types of this cell) could not even be built and filled: '
+                    + line.strip()[:120])
         return 'no object obtained: ' + line[:200]
     steps = []
     for p in parts[1:]:
